@@ -16,7 +16,7 @@ Module C15 (V : UsualOrderedTypeFull).
   Theorem range_simplify_spec :
     forall r vs, canonical r -> Sorted.StronglySorted V.le vs ->
       let s := simplify r vs in
-      canonical s /\ (forall v, In v vs -> contains s v = contains r v) /\ length s <= length r.
+      canonical s /\ (forall v, In v vs -> contains s v = contains r v) /\ (length s <= length r)%nat.
   Proof. exact simplify_spec. Qed.
 
   Theorem range_simplify_special_cases :
